@@ -9,7 +9,8 @@ EXPLANATION = (
     "block.header, of the derived Header PartialEq or of both hashes) decides Ok vs Err(WrongHeader) in both directions (forced constant "
     "propagation); R2 the Ok payload is seal(next_unsealed(self) after apply_tx_batch(all block.transactions)?, block.proposer_action) "
     "(expression provenance + the `?` forcing: a failing batch cannot reach seal/Ok); R3 to_block's three fields; "
-    "R4 a sealed state cannot be forged or mutated from outside the crate (compile-fail witnesses, thorough tier)."
+    "R4 the proposer action is bound into the header (seal applies Some(action) on every path; applying it writes the reward coin with covhash action.reward_dest on every path); "
+    "a sealed state cannot be forged or mutated from outside the crate (compile-fail witnesses, thorough tier)."
 )
 NOT_DECIDED = ["that honestly produced blocks are accepted on every node needs C03 (determinism) and C08 (restart); reported there",
                "Header's derived PartialEq compares all fields: read from melstructs 0.3.3 (trusted base)"]
@@ -146,4 +147,47 @@ def shared(ctx):
     core.import_rules(ctx, [c07.r1_header_map, c07.r5_tx_commitment], "X07")
 
 
-RULES = [r1_header_gate, r2_result_provenance, r3_to_block, shared]
+def r4_action_committed(ctx):
+    r = ctx.rule("R4", "the proposer action is bound into the header: seal(Some(a)) applies a on every path, and applying a writes a coin {id: proposer_reward(height), "
+                       "covhash: a.reward_dest} into the coin tree on every path (otherwise two blocks differing only in their action seal to the same header and both are accepted)")
+    prog = ctx.prog
+    seal = ctx.body("melstf::state::UnsealedState::seal", r)
+    calls = q.call_exprs(seal, "apply_proposer_action")
+    r.check(len(calls) == 1, "seal/call", "seal applies the proposer action", "seal calls apply_proposer_action %d times" % len(calls))
+    for bi, e in calls:
+        act = e[2][1]
+        r.check(sig(q.novers(act)) == "($2 as Some).0", "seal/arg", "the applied action is the parameter's payload", "seal applies %s" % sig(act)[:80], seal.where(bi))
+        # under Some(action) every path to the return passes the call
+        discr = [x for b2, t in seal.iter_terms("switch") for x in [seal.rec_operand(t["discr"], b2, "T")] if x[0] == "discr" and sig(q.novers(x[1])) == "$2"]
+        r.check(len(discr) >= 1, "seal/match", "seal matches on the action", "seal does not branch on the action")
+        if discr:
+            f = q.force(seal, {discr[0]: 1})
+            wo = f.reach_from(0, avoid=[bi])
+            r.check(not any(x in wo for x in seal.return_blocks()), "seal/some=>applied", "Some(action) ⇒ applied on every path", "a path through seal skips the proposer action although it is Some", seal.where(bi))
+    apa = ctx.body("melstf::state::UnsealedState::apply_proposer_action", r)
+
+    def commits(body, depth=0):
+        """blocks of `body` whose call inserts the reward coin keyed by proposer_reward(height) with covhash action.reward_dest"""
+        out = []
+        for bi, e in q.call_exprs(body, "CoinMapping::insert_coin"):
+            s_id, s_data = sig(q.novers(e[2][1])), sig(q.novers(e[2][2]))
+            if s_id.startswith("CoinID::proposer_reward(") and ".height)" in s_id and "covhash: $2.reward_dest" in s_data.replace("$3.reward_dest", "$2.reward_dest"):
+                out.append(bi)
+        return out
+    col = ctx.body("melstf::state::UnsealedState::collect_proposer_action_fee", r)
+    ins = commits(col)
+    r.check(len(ins) == 1, "collect/coin", "the reward coin carries action.reward_dest", "reward-coin insertions with covhash = action.reward_dest: %d" % len(ins))
+    if ins:
+        wo = col.reachable(0, removed=ins)
+        r.check(not any(x in wo for x in col.return_blocks()), "collect/every-path", "written on every path", "a path through collect_proposer_action_fee returns without writing the reward coin: "
+                "the action then leaves no trace in the header", col.where(ins[0]))
+    cc = q.call_exprs(apa, "collect_proposer_action_fee")
+    r.check(len(cc) == 1, "apply/collect", "apply_proposer_action collects the fee", "collect_proposer_action_fee calls: %d" % len(cc))
+    if cc:
+        wo = apa.reachable(0, removed=[cc[0][0]])
+        r.check(not any(x in wo for x in apa.return_blocks()), "apply/every-path", "on every path", "a path through apply_proposer_action skips the reward coin", apa.where(cc[0][0]))
+        a = q.novers(cc[0][1][2][1])
+        r.check(a[0] == "param" and "ProposerAction" in apa.locals[a[1]]["ty"], "apply/arg", "forwards the action", "collect is called with %s" % sig(a)[:60])
+
+
+RULES = [r1_header_gate, r2_result_provenance, r3_to_block, r4_action_committed, shared]
